@@ -266,12 +266,15 @@ class Verifier(object):
             if fr.ytrace is not None and not getattr(fr, "cm_body", None):
                 extra = {"result": None}
                 if c.yields_seq_:
-                    extra["Y"] = fr.ytrace.as_symseq(m)
+                    dflt = (lambda: fresh_of_type(m, c.yields_type_, "nil")) if c.yields_type_ else None
+                    extra["Y"] = fr.ytrace.as_symseq(m, default=dflt)
                 for name, expr in c.yields_seq_:
-                    path.oblige(m.oblname("yields_seq/" + name), m.spec(expr, spec_env, extra=extra), kind="ensures", assume_after=False)
+                    path.oblige(m.oblname("yields_seq/" + name), m.spec(expr, spec_env, extra=extra), kind="ensures",
+                                assume_after=False, uses=c.uses_.get(name))
             for name, expr, opts in c.ensures_:
                 g = m.spec(expr, spec_env, extra={"result": value})
-                path.oblige(m.oblname("ensures/" + name), g, kind="ensures", assume_after=False)
+                path.oblige(m.oblname("ensures/" + name), g, kind="ensures", assume_after=False,
+                            uses=opts.get("uses", c.uses_.get(name)))
         else:
             whens = [m.spec(when, fr.entry_env) for etype, when in c.raises_ if exc_isinstance(exc.etype, etype)]
             allowed = any(exc_isinstance(exc.etype, et) for et, _ in c.may_raise_)
@@ -299,7 +302,7 @@ class Verifier(object):
             index.append((ob, k))
         rjobs = []
         for k, ob in enumerate(reach):
-            rjobs.append((("reach", k), smt.to_smt2(ob.hyps, ob.goal, want_axioms=False), 5000, False))
+            rjobs.append((("reach", k), smt.to_smt2(ob.hyps, ob.goal, want_axioms=False, use_theories=False), 5000, False))
         res = smt.discharge(jobs + rjobs, workers=self.workers)
         clauses = {}
         for ob, k in index:
